@@ -81,23 +81,7 @@ def r_C06bcd(root):
             if isinstance(n, ast.FunctionDef) and n.name in ("pos_to_linecol", "line_col_to_pos") and any(isinstance(a, ast.ClassDef) for a in ancestors(n)):
                 raise AnalysisError("%s re-implements %s: the numeric correctness of position arithmetic cannot be decided by this analysis (Arpeggio's implementation is the trusted base)" % (rel, n.name))
     ob("C06", "C06.d", M, "TextXModelParser", "position arithmetic is inherited from arpeggio.Parser", True)
-    # ---- C06.e  an object's span is the span of the parse-tree node it is built from
-    pn = find_i(root, M, "parse_tree_to_objgraph.process_node"); fip = sem.info(pn)
-    st = {}
-    for n in own_nodes(pn):
-        if isinstance(n, ast.Assign) and len(n.targets) == 1 and isinstance(n.targets[0], ast.Attribute) and n.targets[0].attr in ("_tx_position", "_tx_position_end"):
-            st.setdefault(ast.unparse(n.targets[0].value), {})[n.targets[0].attr] = n
-    if not st: raise AnalysisError("process_node: assignment of _tx_position / _tx_position_end not found")
-    for objtxt, d in sorted(st.items()):
-        inst += 1; bad = None; base = None
-        for attr, want in (("_tx_position", "position"), ("_tx_position_end", "position_end")):
-            if attr not in d: bad = (objtxt + "." + attr, "the object's %s is never set" % attr); break
-            v = fip.expand(d[attr].value, at=d[attr])
-            if not (isinstance(v, ast.Attribute) and v.attr == want): bad = (" ".join(ast.unparse(d[attr]).split()), "%s is not the %s of the object's parse-tree node (%s)" % (attr, want, ast.unparse(v)[:60])); break
-            if base is None: base = ast.unparse(v.value)
-            elif ast.unparse(v.value) != base: bad = (" ".join(ast.unparse(d[attr]).split()), "start and end of the object's span come from different nodes (%s / %s)" % (base, ast.unparse(v.value))); break
-        ob("C06", "C06.e", M, "parse_tree_to_objgraph.process_node", "span of %s = (node.position, node.position_end) of one node" % objtxt, bad is None)
-        if bad: out.append(Finding("C06", "C06.e", M, "parse_tree_to_objgraph.process_node", bad[0], bad[1] + ": the slice no longer starts at the object's first matched character and ends right after its last one", witness="trailing whitespace / comment after the last token; nested objects"))
+    # C06.e (span of a created object) is decided by evaluation: C06.f (sa/rules/cpn.py)
     return inst, out
 def r_C10e(root):
     out = []; inst = 0
